@@ -499,7 +499,7 @@ impl HelpTemplate<'_, '_> {
             }
 
             let key = (sort_key)(arg);
-            ord_v.insert(key, arg);
+            ord_v.insert((key, arg.get_id()), arg);
         }
 
         let next_line_help = self.will_args_wrap(args, longest);
